@@ -174,12 +174,14 @@ def r_nif(rel, x):
     v = core.out(M(p).validate, x)
     if not acc(v):
         return False, []
-    o = core.out(M('es.nif').validate, v[1])
-    if o[0] == 'EXC':
-        return None
     bad = []
-    if o != ('ok', v[1]):
-        bad.append(('es.nif-rejects-valid-%s' % p.split('.')[1], {'x': x, 'canonical': v[1], 'es.nif': [str(t) for t in o]}))
+    for inp in (v[1], x):
+        o = core.out(M('es.nif').validate, inp)
+        if o[0] == 'EXC':
+            return None
+        if o != ('ok', v[1]):
+            bad.append(('es.nif-rejects-valid-%s' % p.split('.')[1], {'x': inp, 'canonical': v[1], 'es.nif': [str(t) for t in o]}))
+            break
     return True, bad
 
 
